@@ -48,6 +48,9 @@ type idp struct {
 	family int
 	tokN   int
 	nCodes int
+
+	discoveryOutage int // the next n discovery requests are answered 503
+	discoveryHits   int
 }
 
 func newIDP(d *driver) *idp {
@@ -112,12 +115,34 @@ func (p *idp) serve(w http.ResponseWriter, r *http.Request) {
 		w.Header().Set("Content-Type", "application/json")
 		_, _ = w.Write([]byte(jwksJSON(p.d.keySet())))
 	case ".well-known/openid-configuration":
+		// the provider (policy) is selected by the query, as some providers do: .../openid-configuration?idp=B
+		if q := r.URL.Query().Get("idp"); q != "" {
+			id = q
+		}
+		p.mu.Lock()
+		fail := p.discoveryOutage > 0
+		if fail {
+			p.discoveryOutage--
+		}
+		p.discoveryHits++
+		p.mu.Unlock()
+		if fail {
+			http.Error(w, "discovery unavailable", http.StatusServiceUnavailable)
+			return
+		}
 		doc := map[string]any{
 			"issuer":                 p.base(id),
 			"authorization_endpoint": p.base(id) + "/authorize",
 			"token_endpoint":         p.base(id) + "/token",
 			"jwks_uri":               p.base(id) + "/jwks",
 			"end_session_endpoint":   p.base(id) + "/discovered-end-session",
+			"code_challenge_methods_supported": []string{"S256", "plain"},
+		}
+		switch r.URL.Query().Get("doc") {
+		case "pkcePlainOnly":
+			doc["code_challenge_methods_supported"] = []string{"plain"}
+		case "noMethods":
+			delete(doc, "code_challenge_methods_supported")
 		}
 		w.Header().Set("Content-Type", "application/json")
 		_ = json.NewEncoder(w).Encode(doc)
@@ -142,8 +167,6 @@ func (p *idp) token(w http.ResponseWriter, r *http.Request, idpID string) {
 
 	ev := map[string]any{
 		"ev": "idp", "grant": grant, "endpoint": idpID,
-		"clientId":     d.symClientID(authID),
-		"clientSecret": d.symClientSecret(authSecret),
 		"authKind":     authKind,
 		"contentType":  r.Header.Get("Content-Type"),
 	}
@@ -162,6 +185,8 @@ func (p *idp) token(w http.ResponseWriter, r *http.Request, idpID string) {
 	ev["n"] = g.check.n
 	ev["c"] = g.check.id
 	ev["f"] = g.check.f
+	ev["clientId"] = d.symClientIDFor(authID, g.check.f)
+	ev["clientSecret"] = d.symClientSecretFor(authSecret, g.check.f)
 	ans := g.dir.Ans
 	if ans == nil {
 		ans = &AnsSpec{Mode: "honest", RT: true}
@@ -272,6 +297,15 @@ func (p *idp) token(w http.ResponseWriter, r *http.Request, idpID string) {
 	}
 	p.mu.Unlock()
 
+	// ground truth for the odd-body grammar: is the body a token response at all (a JSON object whose token_type is bearer)?
+	shaped := false
+	var asObj map[string]any
+	if json.Unmarshal(body, &asObj) == nil && asObj != nil {
+		if tt, ok := asObj["token_type"].(string); ok && strings.EqualFold(tt, "bearer") {
+			shaped = true
+		}
+	}
+	ev["shaped"] = shaped
 	ev["answer"] = answerClass(mode, status, issue)
 	ev["mode"] = mode
 	ev["status"] = status
@@ -379,11 +413,25 @@ func (p *idp) mint(ans *AnsSpec, grant string, lg *login, old *rtRec) (map[strin
 			}
 		}
 	}
+	// the key set configured for the filter this login belongs to (a scenario-wide key change overrides it)
+	effective := d.keySet()
+	if effective == "" {
+		if fs := d.env.fspec[lg.f]; fs != nil {
+			effective = fs.KeySet
+		}
+	}
+	ts.SignKey = ans.SignKey
+	if ts.SignKey == "" && effective == "k3" {
+		ts.SignKey = "k3"
+	}
 	idTok, sigOK := mintID(ts)
-	if class == "goodK3" {
-		sigOK = d.keySet() == "k3"
-	} else if d.keySet() == "k3" {
-		sigOK = false
+	switch {
+	case class == "goodK3":
+		sigOK = effective == "k3"
+	case sigOK && ts.SignKey == "k3":
+		sigOK = effective == "k3"
+	case sigOK:
+		sigOK = effective != "k3"
 	}
 	idSym := fmt.Sprintf("id%d", n)
 	d.rec.bind("id", idTok, idSym)
